@@ -376,6 +376,8 @@ def replay_failures(obl, out, pid=PID):
             continue
         seen.add(key)
         per_label[blabel] = per_label.get(blabel, 0) + 1
+        if pid != PID:
+            case["only_field_types"] = True
         obs = replay_e3.observe(case)
         path = e3.write_replay(pid, "case%03d" % len(seen), case)
         if replay_e3.disagrees(case, obs):
